@@ -17,11 +17,21 @@ History syntax (one S-expression per case, parsed by lean/KrroodVerif/Drive/SG.l
     (defclass c p) define, at this point of the history, a new dataclass Symbol subclass of class p; it gets class index c
     (churn o n c)  n instances of class c (labels o .. o+n-1), each created and discarded at once (no gc, no sweep in
                    between): CPython hands the id() of the discarded instance to the next one
+    (relchurn o n c f t)  n instances of class c created back to back, each asserts field f towards instance t
+                   (s.f = t / append / add, or a direct relation for the plain fields); all but the last are discarded
+                   at once: the last one (kept) sits at a recycled address next to dead, unswept, related instances
+    (fill o) (empty o)   a Bag (class 9, defines __len__) gets an item / loses its items: it is falsy when empty
+    (attach r o)   root_r.knows.append(o): a plain list field (strong reference, unknown to the registry)
+    (detach r)     root_r.knows.clear()
+    (queryf c)     r = let(C, None); u = flatten(r.knows); list(an(entity(u, u.label >= 0)).evaluate())
+    (queryfd c o ...)  the same with r = let(C, [o, ...]) and an(set_of([r, u], u.label >= 0))
+    (loop n (pre <op> ...) <op> ...)   C20: the pre operations run once; labels 900..999 name the long-lived instances
+                   they create (kept until the end of the loop, never shifted)
     (newrole o e)  Chair(o, emp=<instance e>): a Role[Emp] whose role taker is e     (head o g)  chair_o.head_of = org_g
 Objects are only ever named by harness-assigned labels (never ids or reprs).
 
 Class indices: 0 Thing, 1 Org(Thing), 2 Emp(Thing), 3 Mgr(Emp), 4 A(Thing), 5 B(A), 6 C(A), 7 D(B, C),
-8 Chair(Role[Emp], Thing); indices >= 20 are classes defined by the history itself.
+8 Chair(Role[Emp], Thing), 9 Bag(Thing) with __len__ (falsy when empty); indices >= 20 are classes defined by the history itself.
 Field indices: 0 Emp.works_for (WorksFor < MemberOf), 1 Emp.member_of (MemberOf <-> Member), 2 Org.members (Member),
 3 Org.sub_of (SubOf, transitive), 4 Thing.knows, 5 Thing.likes (plain dataclass fields, direct relations only).
 """
@@ -33,8 +43,8 @@ import sys
 import weakref
 from typing import Any, Dict, List, Optional, Tuple
 
-N_CLASSES = 9
-SUBS = {0: [1, 2, 4, 8], 2: [3], 4: [5, 6], 5: [7], 6: [7]}
+N_CLASSES = 10
+SUBS = {0: [1, 2, 4, 8, 9], 2: [3], 4: [5, 6], 5: [7], 6: [7]}
 FIRST_DYNAMIC_CLASS = 20
 # descriptor-managed fields are only written on instances of the class that declares them: for a subclass instance
 # (Mgr) krrood keys the inferred inverse by a different WrappedField (Mgr.member_of vs Emp.member_of) and records the
@@ -75,7 +85,10 @@ def parse(line: str):
 
 
 def show(ops) -> str:
-    return " ".join("(" + " ".join(str(x) for x in op) + ")" for op in ops)
+    def one(x):
+        return "(" + " ".join(one(y) for y in x) + ")" if isinstance(x, (list, tuple)) else str(x)
+
+    return " ".join(one(op) for op in ops)
 
 
 # ------------------------------------------------------------------------------------------------ real code side
@@ -151,6 +164,14 @@ class Chair(Role[Emp], Thing):
     def __hash__(self):
         return id(self)
 
+@dataclass(eq=False)
+class Bag(Thing):
+    stuff: List[int] = field(default_factory=list)
+
+    # a container-like Symbol: falsy while it is empty
+    def __len__(self):
+        return len(self.stuff)
+
 @dataclass
 class Member(PropertyDescriptor, HasInverseProperty):
     @classmethod
@@ -191,7 +212,7 @@ Chair.head_of = HeadOf(Chair, "head_of")
                         TransitiveProperty=TransitiveProperty, Role=Role)
     sys.modules["krrood_verif_sg_schema"] = mod
     exec(compile(src, "krrood_verif_sg_schema", "exec"), mod.__dict__)
-    classes = [mod.Thing, mod.Org, mod.Emp, mod.Mgr, mod.A, mod.B, mod.C, mod.D, mod.Chair]
+    classes = [mod.Thing, mod.Org, mod.Emp, mod.Mgr, mod.A, mod.B, mod.C, mod.D, mod.Chair, mod.Bag]
     plain = {}
     for fid in (4, 5):
         f = [x for x in fields(mod.Thing) if x.name == FIELD_NAMES[fid]][0]
@@ -339,6 +360,65 @@ class Runner:
             epoch.add(o + i)
             del x
 
+    def op_relchurn(self, o: int, n: int, c: int, f: int, t: int):
+        from krrood.entity_query_language.symbol_graph import PredicateClassRelation
+        if not self._alive(t):
+            return
+        cls, tgt = self.classes[c], self.wrefs[t]()
+        wrefs, cls_of, epoch, ref = self.wrefs, self.cls_of, self.epoch, weakref.ref
+        kind, name = FIELD_KIND[f], FIELD_NAMES[f]
+        epoch.add(t)
+        for i in range(n):
+            x = cls(o + i)
+            wrefs[o + i] = ref(x)
+            cls_of[o + i] = c
+            epoch.add(o + i)
+            if kind == "plain":
+                PredicateClassRelation(x, tgt, self.S["plain"][f]).add_to_graph()
+            elif kind == "scalar":
+                setattr(x, name, tgt)
+            elif kind == "list":
+                getattr(x, name).append(tgt)
+            else:
+                getattr(x, name).add(tgt)
+            if i + 1 == n:
+                self.objs[o + i] = x
+            del x
+        del tgt
+
+    def op_fill(self, o: int):
+        if self._alive(o) and hasattr(self.wrefs[o](), "stuff"):
+            self.wrefs[o]().stuff.append(1)
+
+    def op_empty(self, o: int):
+        if self._alive(o) and hasattr(self.wrefs[o](), "stuff"):
+            self.wrefs[o]().stuff.clear()
+
+    def op_attach(self, r: int, o: int):
+        if self._alive(r) and self._alive(o):
+            self.wrefs[r]().knows.append(self.wrefs[o]())
+
+    def op_detach(self, r: int):
+        if self._alive(r):
+            self.wrefs[r]().knows.clear()
+
+    def op_queryf(self, c: int, dom: Optional[List[int]]):
+        from krrood.entity_query_language.entity import entity, let, flatten, set_of
+        from krrood.entity_query_language.quantify_entity import an
+        cls = self.classes[c]
+        if dom is None:
+            r = let(cls, None)
+            u = flatten(r.knows)
+            res = list(an(entity(u, u.label >= 0)).evaluate())
+        else:
+            d = [self.wrefs[o]() for o in dom if self._alive(o)]
+            r = let(cls, d)
+            u = flatten(r.knows)
+            res = [(row[r], row[u]) for row in an(set_of([r, u], u.label >= 0)).evaluate()]
+            del d
+        del res, r, u
+        gc.collect()
+
     def op_newrole(self, o: int, e: int):
         if o in self.wrefs or not self._alive(e):
             return
@@ -479,6 +559,20 @@ class Runner:
             self.op_defclass(int(op[1]), int(op[2]))
         elif name == "churn":
             self.op_churn(int(op[1]), int(op[2]), int(op[3]))
+        elif name == "relchurn":
+            self.op_relchurn(int(op[1]), int(op[2]), int(op[3]), int(op[4]), int(op[5]))
+        elif name == "fill":
+            self.op_fill(int(op[1]))
+        elif name == "empty":
+            self.op_empty(int(op[1]))
+        elif name == "attach":
+            self.op_attach(int(op[1]), int(op[2]))
+        elif name == "detach":
+            self.op_detach(int(op[1]))
+        elif name == "queryf":
+            self.op_queryf(int(op[1]), None)
+        elif name == "queryfd":
+            self.op_queryf(int(op[1]), [int(x) for x in op[2:]])
         elif name == "newrole":
             self.op_newrole(int(op[1]), int(op[2]))
         elif name == "head":
@@ -592,26 +686,36 @@ def fmt(xs) -> str:
     return "[" + ",".join(str(x) for x in xs) + "]"
 
 
+def _sh(l, d: int) -> int:
+    """labels 900..999 name the long-lived instances of a C20 loop: they are not shifted"""
+    l = int(l)
+    return l if 900 <= l < 1000 else l + d
+
+
 def shift_op(op, d: int):
     n = op[0]
     if n == "new":
-        return [n, int(op[1]) + d, op[2]]
-    if n in ("drop", "evalq", "dropq", "qnext"):
+        return [n, _sh(op[1], d), op[2]]
+    if n in ("drop", "fill", "empty", "detach"):
+        return [n, _sh(op[1], d)]
+    if n in ("evalq", "dropq", "qnext"):
         return [n, int(op[1]) + d]
     if n == "qstart":
         return [n, int(op[1]) + d, op[2]]
     if n in ("rel", "set"):
-        return [n, op[1], int(op[2]) + d, int(op[3]) + d]
+        return [n, op[1], _sh(op[2], d), _sh(op[3], d)]
     if n == "mkq":
         return [n, int(op[1]) + d, op[2]]
     if n == "churn":
-        return [n, int(op[1]) + d, op[2], op[3]]
-    if n in ("newrole", "head"):
-        return [n, int(op[1]) + d, int(op[2]) + d]
+        return [n, _sh(op[1], d), op[2], op[3]]
+    if n == "relchurn":
+        return [n, _sh(op[1], d), op[2], op[3], op[4], _sh(op[5], d)]
+    if n in ("newrole", "head", "attach"):
+        return [n, _sh(op[1], d), _sh(op[2], d)]
     if n == "mkqd":
-        return [n, int(op[1]) + d, op[2]] + [int(x) + d for x in op[3:]]
-    if n == "queryd":
-        return [n, op[1]] + [int(x) + d for x in op[2:]]
+        return [n, int(op[1]) + d, op[2]] + [_sh(x, d) for x in op[3:]]
+    if n in ("queryd", "queryfd"):
+        return [n, op[1]] + [_sh(x, d) for x in op[2:]]
     return op
 
 
@@ -641,15 +745,23 @@ def run_case(kind: str, line: str) -> str:
         elif s[0] == "loop":
             n = int(s[1])
             body = s[2:]
+            pre = []
+            if body and isinstance(body[0], list) and body[0] and body[0][0] == "pre":
+                pre, body = body[0][1:], body[1:]
             base = _structure_sizes()
             series = []
+            r.run_ops(pre)
             for i in range(n):
                 r.run_ops(body, shift=1000 * i)
                 r.qs.clear()
-                r.objs.clear()
+                for l in [l for l in r.objs if not 900 <= l < 1000]:
+                    del r.objs[l]
                 gc.collect()
                 SymbolGraph().remove_dead_instances()
                 series.append(_structure_sizes())
+            r.objs.clear()
+            gc.collect()
+            SymbolGraph().remove_dead_instances()
             if r.raised is not None:
                 out = "exc"
             else:
@@ -772,6 +884,26 @@ class Gen:
         self.classes.append(c)
         return ["defclass", c, parent]
 
+    def relchurn(self):
+        """related temporaries discarded back to back, the last one kept: sources that die at once (no inverse field
+        on the target holds them): Org.sub_of towards an Org, or a direct relation among non-Org instances"""
+        r = self.rng.random()
+        org = self.pick(ORG_LIKE)
+        non_org = [x for x, c in self.held.items() if c not in ORG_LIKE and c != 8]
+        if r < 0.5 and org is not None:
+            c, f, t = 1, 3, org
+        elif non_org:
+            c, f, t = self.rng.choice([2, 3, 4]), self.rng.choice([4, 5]), self.rng.choice(non_org)
+        else:
+            return None
+        n = self.rng.randint(2, 6)
+        o = self.next
+        self.next += n
+        for i in range(n):
+            self.known[o + i] = c
+        self.held[o + n - 1] = c
+        return ["relchurn", o, n, c, f, t]
+
     def churn(self):
         n = self.rng.randint(2, 8)
         c = self.rng.choice(self.classes)
@@ -850,10 +982,10 @@ class Gen:
         return ["dropq", k]
 
     def history(self, length: int, w_new=3.0, w_drop=2.0, w_rel=2.0, w_sweep=1.0, w_clear=0.3, w_query=2.0,
-                plain=True, w_defclass=0.0, w_churn=0.0, w_step=0.0):
+                plain=True, w_defclass=0.0, w_churn=0.0, w_step=0.0, w_relchurn=0.0, w_bag=0.0):
         ops = []
-        kinds = ["new", "drop", "rel", "sweep", "clear", "query", "defclass", "churn", "step"]
-        weights = [w_new, w_drop, w_rel, w_sweep, w_clear, w_query, w_defclass, w_churn, w_step]
+        kinds = ["new", "drop", "rel", "sweep", "clear", "query", "defclass", "churn", "step", "relchurn", "bag"]
+        weights = [w_new, w_drop, w_rel, w_sweep, w_clear, w_query, w_defclass, w_churn, w_step, w_relchurn, w_bag]
         while len(ops) < length:
             k = self.rng.choices(kinds, weights)[0]
             op = None
@@ -869,6 +1001,14 @@ class Gen:
                 op = self.defclass()
             elif k == "churn":
                 op = self.churn()
+            elif k == "relchurn":
+                op = self.relchurn()
+            elif k == "bag":
+                bags = [o for o, c in self.held.items() if c == 9]
+                if bags and self.rng.random() < 0.7:
+                    op = [self.rng.choice(["fill", "fill", "empty"]), self.rng.choice(bags)]
+                else:
+                    op = self.new(9)
             elif k == "step":
                 # a lazily consumed evaluation: started once, advanced one next() at a time between other operations
                 if not self.iter_keys or self.rng.random() < 0.2:
